@@ -436,6 +436,10 @@ class Spec:
                 return self.fail('item(i) indexes the distinct names', dict(w, i=i, impl=style.item(i), spec=want))
         allp = style.getProperties(all=True)
         it = list(style)
+        if any(p is None for p in it) or any(p is None for p in style.getProperties()):
+            return self.fail('iteration and getProperties() yield a property (never None) for every listed name',
+                             dict(w, names=names, iteration=[None if p is None else p.name for p in it],
+                                  getProperties=[None if p is None else p.name for p in style.getProperties()]))
         if [p.name for p in it] != names:
             return self.fail('iteration yields one property per distinct name', dict(w, impl=[p.name for p in it]))
         effl = style.getProperties()
